@@ -304,6 +304,18 @@ def fresh_compare(ctx, rnd):
                       {'fn': label, 'args': repr((a, sorted(k.items())))[:300]}, 'fresh interpreter: ' + ref[:200], ok[:200], note)
 
 
+def _shape(v, depth=0):
+    """the members of a caller-owned container, two levels deep: the same objects in the same places, and containers among them
+    with the same members (objects are compared by identity - a copy would not equal an object without __eq__)"""
+    def member(x):
+        if depth < 1 and isinstance(x, (list, dict)):
+            return _shape(x, depth + 1)
+        return x if isinstance(x, (str, int, float, bool, type(None))) else id(x)
+    if isinstance(v, dict):
+        return ('D', [(k if isinstance(k, (str, int, float, bool, type(None))) else id(k), member(x)) for k, x in v.items()])
+    return ('L', [member(x) for x in v])
+
+
 def monitor(owner, name, on_event, rebind_aliases=True, pure=True):
     """Wrap owner.name (module or class attribute); on_event(args, kwargs, outcome)."""
     original = getattr(owner, name) if not isinstance(owner, type) else owner.__dict__[name]
@@ -368,6 +380,33 @@ def monitor(owner, name, on_event, rebind_aliases=True, pure=True):
 
     def judged(a, k, dctx=None):
         a2, k2 = by_keyword(a, k)
+        # what the caller hands over stays the caller's: a list or dict argument (items to sort, a field card, an action log) is
+        # compared with a copy of itself after the call
+        mutable = [(i, v) for i, v in enumerate(a) if isinstance(v, (list, dict))]
+        before = None
+        if mutable:
+            try:
+                before = [(i, _shape(v)) for i, v in mutable]
+            except Exception:
+                before = None
+        try:
+            return judged2(a, k, a2, k2, dctx)
+        finally:
+            if before is not None:
+                ctx = DET['ctx']
+                for (i, was), (_i, v) in zip(before, mutable):
+                    try:
+                        now = _shape(v)
+                        same = was == now
+                    except Exception:
+                        same = True
+                    if ctx is not None:
+                        ctx.counters['eval.caller-owned-argument-compared'] += 1
+                        if not same:
+                            ctx.violation('argument-mutated:%s.%s:argument-%d' % (getattr(owner, '__name__', owner), name, i),
+                                          {'fn': name, 'argument': i}, repr(was)[:300], repr(v)[:300])
+
+    def judged2(a, k, a2, k2, dctx):
         try:
             if dctx is None:
                 r = raw(*a2, **k2)
